@@ -34,6 +34,7 @@ type MixParams struct {
 	NoPipeInLRem   bool
 	NoEmptyMember  bool // K-C06-empty-member: SRem/SPop of the empty set member remove nothing
 	NoEmptyZKey    bool
+	NoZPop         bool // K4: positional sorted-set removals (ZPopMax/ZPopMin/ZRemRangeByRank) are excluded from programs with Merge
 	KVTTL          bool
 	ViewWrites     bool     // read-only transactions also call mutating APIs (must fail, no effect)
 	AfterP         float64  // probability that calls are made on the handle of a finished transaction
@@ -286,9 +287,18 @@ func (g *G) mixOp(ds string, write bool, p MixParams, kp KVParams) (op prog.Op, 
 		case 5, 6:
 			return prog.Op{K: "zrem", B: b, Key: k}, 1, buckets
 		case 7:
+			if p.NoZPop {
+				return prog.Op{K: "zrem", B: b, Key: k}, 1, buckets
+			}
 			return prog.Op{K: "zremrank", B: b, I: g.idx(p), J: g.idx(p)}, 1, buckets
 		case 8:
+			if p.NoZPop {
+				return prog.Op{K: "zadd", B: b, Key: k, F: sc, Val: g.Val()}, 2, buckets
+			}
 			return prog.Op{K: "zpopmax", B: b}, 1, buckets
+		}
+		if p.NoZPop {
+			return prog.Op{K: "zrem", B: b, Key: k}, 1, buckets
 		}
 		return prog.Op{K: "zpopmin", B: b}, 1, buckets
 	}
